@@ -251,6 +251,10 @@ def jobs(tier):
     add(cfgs=[1, 2, 3, 4, 5, 6, 7, 8, 9, 10, 11], idl=dict(start=1, stop=12, step=2), perm=2, part='imag')
     add(cfgs=[1, 2, 3, 5, 6, 7], idl=[1, 2, 3, 5, 6, 7], perm=4)                     # irregular set needs the idl
     add(cfgs=[1, 2, 3, 5, 6, 7], expect_error='configurations not evenly spaced and no idl')
+    # uneven sets that look like a range from their end points and first spacing (last = first + (n-1) * first spacing)
+    add(cfgs=[1, 3, 4, 6, 9], expect_error='configurations not evenly spaced and no idl')
+    add(cfgs=[2, 4, 5, 8, 9, 10, 13, 17], idl=[2, 4, 5, 9, 10], perm=6)
+    add(cfgs=[1, 3, 4, 6, 9], idl=[1, 3, 4, 6, 9], perm=9, part='imag')
     add(cfgs=[1, 2, 3, 4, 5], idl=dict(start=1, stop=8, step=1), expect_error='idl asks for configurations that are not there')
     add(cfgs=[1, 2, 3, 4, 5], how='ambiguous', expect_error='more than one entry fits')
     add(cfgs=[1, 2, 3, 4, 5], nent=1, entry=1, expect_error='entry not in the files')
